@@ -24,8 +24,17 @@ Record case := {
   c_plans : list plan_case
 }.
 
-Definition run_check (c : case) : bres :=
-  bisim_check (c_P c) (c_Q c) (c_MP c) (c_MQ c) (c_sigsP c) (c_sigsQ c) (c_initP c) (c_initQ c) (c_depth c) (c_cap c).
+Definition explore_of (c : case) : list node * nat := bisim_explore (c_P c) (c_sigsP c) (c_initP c) (c_depth c) (c_cap c).
+
+Definition check_with (vb : list node * nat) (c : case) : bres :=
+  bisim_check_with vb (c_P c) (c_Q c) (c_MP c) (c_MQ c) (c_sigsP c) (c_sigsQ c) (c_initP c) (c_initQ c).
+
+(* = bisim_check on the case's problems (by definition of bisim_check) *)
+Definition run_check (c : case) : bres := check_with (explore_of c) c.
+
+Lemma run_check_is_bisim_check c :
+  run_check c = bisim_check (c_P c) (c_Q c) (c_MP c) (c_MQ c) (c_sigsP c) (c_sigsQ c) (c_initP c) (c_initQ c) (c_depth c) (c_cap c).
+Proof. reflexivity. Qed.
 
 (* a written plan parses back to the same action instances and has the expected validity in BOTH problems *)
 Definition plan_ok (c : case) (pc : plan_case) : bool :=
@@ -39,13 +48,12 @@ Definition acts_of (c : case) : list N := map fst (c_sigsP c) ++ map fst (c_sigs
           + 1000 when the temporal structures differ
           + 2000 when a plan round trip fails
           + 4000 when the metrics are not structurally equal (information only: the behavioural comparison of the
-            metric values is part of bisim_check) *)
+            metric values is part of bisim_check)
+          + 10000 * (100 * number of explored states + bound)      (evidence only) *)
 Definition code (c : case) : N :=
-  (bres_code (run_check c)
+  let vb := explore_of c in
+  (bres_code (check_with vb c)
    + (if temporal_structure_eqb (c_TP c) (c_TQ c) then 0 else 1000)
    + (if forallb (plan_ok c) (c_plans c) then 0 else 2000)
-   + (if metric_eqb (acts_of c) (c_MP c) (c_MQ c) then 0 else 4000))%N.
-
-(* evidence: (number of explored states, bound) *)
-Definition size_of (c : case) : nat * nat := explored_size (c_P c) (c_sigsP c) (c_initP c) (c_depth c) (c_cap c).
-Definition size_code (c : case) : N := (N.of_nat (fst (size_of c)) * 100 + N.of_nat (snd (size_of c)))%N.
+   + (if metric_eqb (acts_of c) (c_MP c) (c_MQ c) then 0 else 4000)
+   + 10000 * (N.of_nat (length (fst vb)) * 100 + N.of_nat (snd vb)))%N.
